@@ -1,9 +1,60 @@
-import PromModel.Tsdb.Exemplars
+import PromProofs.ExemplarsOrd
+/-
+  C21 — Exemplar storage keeps the newest accepted exemplars in order.
+  Property theorems about the transcribed `CircularExemplarStorage` (PromModel/Tsdb/Exemplars.lean).
+  Helper lemmas live in PromProofs/Exemplars*.lean.
+-/
 namespace Prom.C21
 open Prom.Exemplars
 
 theorem add_disabled (r : Ring) (s : Nat) (e : Ex) (h : r.exs.length = 0) :
     add r s e = (r, .err .disabled) := by
   simp [add, h]
+
+/-- A fresh storage satisfies the ring-order invariant (all slots free). -/
+theorem ringOrd_new (c w : Int) : RingOrd (Ring.new c w) := by
+  refine ⟨c.toNat, [], ?_, ?_⟩
+  · simp [Ring.new]; omega
+  · simp [rot, contents, Ring.new, Entry.zero]
+
+/-- **Eviction is in acceptance order** (`AddExemplar`). Reading the ring in ingestion order gives
+    `absAcc r`. A stored exemplar is appended to it and the result is cut to the newest `cap`; an
+    exemplar that is not stored (error, duplicate, silent drop) leaves the whole state unchanged. -/
+theorem evict_in_acceptance_order (r : Ring) (s : Nat) (e : Ex) (h : RingOrd r) :
+    RingOrd (add r s e).1 ∧
+    ((add r s e).2 = .stored → absAcc (add r s e).1 = lastN r.exs.length (absAcc r ++ [(s, e)])) ∧
+    ((add r s e).2 ≠ .stored → (add r s e).1 = r) := by
+  obtain ⟨k, acc, hw⟩ := h
+  by_cases hst : (add r s e).2 = .stored
+  · have h' := add_ringOrd r s e k acc hw hst
+    refine ⟨⟨_, _, h'⟩, fun _ => ?_, fun hn => absurd hst hn⟩
+    rw [h'.absAcc, hw.absAcc]
+  · refine ⟨?_, fun h => absurd h hst, fun _ => add_not_stored r s e hst⟩
+    rw [add_not_stored r s e hst]; exact ⟨k, acc, hw⟩
+
+/-- Never evicts while capacity remains. -/
+theorem no_eviction_while_free (r : Ring) (s : Nat) (e : Ex) (h : RingOrd r)
+    (hfree : (absAcc r).length < r.exs.length) (hst : (add r s e).2 = .stored) :
+    absAcc (add r s e).1 = absAcc r ++ [(s, e)] := by
+  rw [(evict_in_acceptance_order r s e h).2.1 hst, lastN_all]
+  simp; omega
+
+/-- When full, exactly the oldest accepted exemplar is evicted. -/
+theorem evicts_oldest_when_full (r : Ring) (s : Nat) (e : Ex) (h : RingOrd r)
+    (hfull : (absAcc r).length = r.exs.length) (hst : (add r s e).2 = .stored) :
+    absAcc (add r s e).1 = (absAcc r).tail ++ [(s, e)] := by
+  rw [(evict_in_acceptance_order r s e h).2.1 hst]
+  cases hacc : absAcc r with
+  | nil =>
+    have := (add_stored_eq r s e hst).1
+    rw [hacc] at hfull; simp at hfull; omega
+  | cons a t =>
+    rw [hacc] at hfull
+    simp [lastN, ← hfull]
+
+/-- The hypotheses are satisfiable: a ring of capacity 1 that already holds one exemplar. -/
+example : ∃ r : Ring, RingOrd r ∧ (absAcc r).length = r.exs.length ∧ (add r 0 ⟨5, 0, true, "-", 0⟩).2 = .stored :=
+  ⟨(add (Ring.new 1 0) 0 ⟨3, 0, true, "-", 0⟩).1,
+    (evict_in_acceptance_order _ _ _ (ringOrd_new 1 0)).1, by decide, by decide⟩
 
 end Prom.C21
